@@ -187,6 +187,9 @@ func genC10(t *rapid.T) *Case {
 			wrap := strings.Repeat("<div>", rapid.IntRange(0, 4).Draw(t, "svgdepth"))
 			page = strings.Replace(page, "</body>", wrap+"<p>figure text "+svg+` and <math><mtext>x</mtext><style>m{}</style></math> more text.</p>`+strings.Repeat("</div>", strings.Count(wrap, "<div>"))+"</body>", 1)
 		}
+		if rapid.IntRange(0, 3).Draw(t, "rawunicode") == 0 {
+			page = strings.Replace(page, "</body>", unicodeSnippet+"</body>", 1) // decomposed accents, soft hyphens, compatibility characters
+		}
 		d := c10Doc{HTML: page, Root: rapid.SampledFrom([]string{"document", "html", "sub", "detached", "document"}).Draw(t, "root")}
 		if d.Root == "sub" || d.Root == "detached" {
 			depth := rapid.IntRange(1, 4).Draw(t, "depth")
@@ -255,7 +258,8 @@ func checkC10(c *Case) (*Violation, caseInfo) {
 	}
 	docs := make([]*liveDoc, len(ex.Docs))
 	for i, d := range ex.Docs {
-		parsed, err := dom.Parse(bytes.NewReader([]byte(d.HTML)))
+		// (plain html.Parse: the caller's tree keeps its text exactly as it stands in the bytes)
+		parsed, err := html.Parse(bytes.NewReader([]byte(d.HTML)))
 		if err != nil {
 			info.Skip = "parse-failed"
 			return nil, info
